@@ -36,4 +36,33 @@ def int_utility_desc(rng):
     return desc, {"int_utility": True, "stochastic": bool(stochastic)}
 
 
-TEMPLATES = {"int_utility": int_utility_desc}
+def _stateless(rng, period_dep):
+    """A model WITHOUT state variables (repeated static choice problem linked only by discounting):
+    every value array is a scalar."""
+    nd = int(rng.integers(2, 4))
+    nc = int(rng.integers(2, 9))
+    T = int(rng.integers(2, 6))
+    k = round(float(rng.uniform(0.1, 0.9)), 4)
+    per = " * (1 + 0.31 * _period)" if period_dep else ""
+    fns = [["utility", ["c", "d", "k"] + (["_period"] if period_dep else []), f"xp.log(c) - k * d{per} + {round(float(rng.uniform(0.05, 0.5)), 4)} * d * c"]]
+    params = {"beta": round(float(rng.uniform(0.5, 1.0)), 4), "utility": {"k": k}}
+    if rng.random() < 0.6:
+        fns.append(["cd_constraint", ["c", "d"], f"c <= {round(float(rng.uniform(0.8, 2.0)), 4)} + d"])
+        params["cd_constraint"] = {}
+    choices = [["c", {"kind": "lin", "start": 0.5, "stop": round(float(rng.uniform(2.0, 6.0)), 4), "n": nc}], ["d", {"kind": "disc", "n": nd}]]
+    if rng.random() < 0.5:
+        choices.reverse()
+    desc = {"n_periods": T, "states": [], "choices": choices, "functions": [fns[i] for i in rng.permutation(len(fns))],
+            "stochastic": [], "tables": {}, "params": params}
+    return desc, {"stateless": True}
+
+
+def stateless_desc(rng):
+    return _stateless(rng, bool(rng.random() < 0.6))
+
+
+def stateless_noperiod_desc(rng):
+    return _stateless(rng, False)
+
+
+TEMPLATES = {"int_utility": int_utility_desc, "stateless": stateless_desc, "stateless_noperiod": stateless_noperiod_desc}
